@@ -38,7 +38,7 @@ def profile(n, bs=(FV, FV), dx=1, ov=None, sc=0):
     return d
 
 
-def lattice_mesh(rng, cx, cy, holes=0, jitter=False, st="default"):
+def lattice_mesh(rng, cx, cy, holes=0, jitter=False, st="default", isolated=0):
     """(cx x cy) cells on an integer lattice (step 4), each split along a random diagonal."""
     step = 4
     pts = [[x * step, y * step] for y in range(cy + 1) for x in range(cx + 1)]
@@ -82,6 +82,11 @@ def lattice_mesh(rng, cx, cy, holes=0, jitter=False, st="default"):
                         if pts[v] != base[v]:
                             pts[v] = list(base[v])
                             changed = True
+    if isolated:
+        # a point that no triangle references (a node without neighbours), anywhere in the node order
+        pos = rng.randrange(len(pts) + 1)
+        pts.insert(pos, [step * (cx + 2) + rng.randint(0, 3), step * (cy + 2) + rng.randint(0, 3)])
+        tri = [[v + 1 if v >= pos else v for v in t] for t in tri]
     return dict(t="mesh", pts=pts, tri=tri, st=st)
 
 
@@ -180,7 +185,7 @@ def rand_grid(rng, max_side=5, kinds=("raster", "profile", "mesh"), allow_loop=T
         return profile(n, bs, dx=rng.choice(spacings))
     if k == "mesh":
         return lattice_mesh(rng, rng.randint(1, max(1, max_side - 2)), rng.randint(1, max(1, max_side - 2)),
-                            holes=rng.choice([0, 0, 1]), jitter=rng.random() < 0.4)
+                            holes=rng.choice([0, 0, 1]), jitter=rng.random() < 0.4, isolated=1 if rng.random() < 0.3 else 0)
     conn = rng.choice(["queen", "queen", "rook", "bishop"])
     cache = 0 if (conn == "queen" and rng.random() < nocache) else 1
     return raster(rng.randint(2, max_side), rng.randint(2, max_side), conn, rand_bounds_raster(rng, allow_loop),
